@@ -15,8 +15,10 @@
   lanes committing in any order, reports in any order, flush ticks at any time, each request applied
   on its own, a crash after any request — is as in `Sys`.
 
-  NOT modelled: the in-process frontier-miss fast path of `bisyncStartPoint` (a later StartPoint of the
-  same RedisOutput answered from the in-memory frontier): `start` is always a fresh read of the target.
+  Here `start` is always a fresh read of the target (a new process). The in-process frontier-miss fast
+  path of `bisyncStartPoint` (a later StartPoint of the same RedisOutput answered from the in-memory
+  frontier) is a step of the extension Model/FrontierProc.lean (`PSys`); a restart of the unit
+  numbering is Model/FrontierRenumber.lean.
 -/
 import GunYu.Model.FrontierSys
 
